@@ -5,7 +5,8 @@ from ..model import load_model
 from ..harness import partition, valuations
 from ..callgraph import CallGraph
 from .. import spec
-from ..evalengine import depth1_instances, depth2_instances, eval_case, pmap, param_class, region_class
+from ..evalengine import (depth1_instances, depth2_instances, constant_child_instances, eval_case, pmap,
+                          param_class, region_class)
 from ..derivcommon import derivative_cases
 from ..derivengine import deriv_group, ROUTES, EXPR_ROUTES
 
@@ -116,7 +117,7 @@ def check(rep):
     inst1, _ = depth1_instances(model, tier)
     inst2 = depth2_instances(model, "quick")
     cases = []
-    for tree, label in inst1 + inst2:
+    for tree, label in inst1 + inst2 + constant_child_instances(model, tier):
         names = spec.variables(tree)
         use = atoms if len(names) <= 1 else coarse
         for val in valuations(names, use):
